@@ -84,3 +84,39 @@ Example c01_nonvacuous :
   trans_offset true 6 (mkPT (Some (DM 3 2 0)) (Some 7200)) = OK (date_yday (DM 3 2 0) 2028 * 86400 + 7200)
   /\ date_yday (DM 3 2 0) 2028 = 71.
 Proof. vm_compute. split; reflexivity. Qed.
+
+From CCTZ Require Import FutureDefs FutureProofs.
+
+(* instant -> civil, beyond the table of an extended zone: the answer is the table's answer
+   400*k years earlier (inside the generated window), re-dated *)
+Theorem c01_future_lookup : forall z h t l,
+  zone_ok z = true -> z_extended z = true -> last_opt (z_trans z) = Some l ->
+  P400 <= tr_time l -> int64 t -> tr_time l <= t ->
+  let k := (t - tr_time l) / P400 + 1 in
+  exists h' dst ab,
+    break_time z h t = OK (mkAL (civil_of_seconds (t + zoff (abs_zone z) (t - k * P400)))
+                                (zoff (abs_zone z) (t - k * P400)) dst ab, h')
+    /\ info_of z (zid (abs_zone z) (t - k * P400)) = OK (dst, ab)
+    /\ tr_time l - P400 <= t - k * P400 < tr_time l.
+Proof. exact break_future_lemma. Qed.
+Print Assumptions c01_future_lookup.
+
+Theorem rule_state_periodic : forall r t k, rule_state r (t + P400 * k) = rule_state r t.
+Proof. exact rule_state_periodic_lemma. Qed.
+Print Assumptions rule_state_periodic.
+
+Theorem rule_window : forall r std_ti dst_ti last_time y0 n (l : list ztr) t b,
+  rule_ok r = true ->
+  pdate_ok' (r_start_date r) = true -> pdate_ok' (r_end_date r) = true ->
+  -1000000 <= r_start_time r <= 1000000 -> -1000000 <= r_end_time r <= 1000000 ->
+  -100000 <= fst (fst (r_std r)) <= 100000 -> -100000 <= fst (fst (r_dst r)) <= 100000 ->
+  map (fun x => (zt_time x, zt_id x)) l = rule_gen' r std_ti dst_ti last_time y0 n ->
+  y0 + 1 <= year_of_instant t <= y0 + Z.of_nat n - 2 ->
+  last_time <= t - 3 * 366 * 86400 ->
+  rule_state r t = Some b ->
+  (forall cur, zid_list l cur t = (if b then dst_ti else std_ti)) /\
+  (forall offf, (forall x, In x l -> zt_off x = offf (zt_id x)) ->
+     forall cur, zoff_list l cur t = offf (if b then dst_ti else std_ti)).
+Proof. exact rule_window_lemma. Qed.
+Print Assumptions rule_window.
+
